@@ -33,6 +33,7 @@ package main
 
 import (
 	"fmt"
+	"runtime"
 	"sort"
 	"strings"
 	"sync"
@@ -101,7 +102,7 @@ type tbEvent struct {
 }
 
 type tbCtl struct {
-	mu      sync.RWMutex
+	mu      spinLock
 	threads []*tbThread
 	byGoid  map[int64]*tbThread
 	ev      chan tbEvent
@@ -201,11 +202,14 @@ func (c *tbCtl) settle() bool {
 		}
 		c.mu.Unlock()
 		if running == 0 && len(c.ev) == 0 {
-			// a goroutine seen blocked may have been woken since the dump: look twice
+			// a goroutine seen blocked may have been woken since the dump: look three times, letting
+			// the others run in between
 			stable++
-			if stable >= 2 {
+			if stable >= 3 {
 				return true
 			}
+			runtime.Gosched()
+			time.Sleep(30 * time.Microsecond)
 			continue
 		}
 		stable = 0
